@@ -194,6 +194,12 @@ func vpWipeStatuses(w *vpWorld) {
 		grs.Items[i].Status = gatewayv1.GRPCRouteStatus{}
 		_ = w.k8s.Status().Update(ctx, &grs.Items[i])
 	}
+	var trs v1alpha2.TLSRouteList
+	_ = w.k8s.List(ctx, &trs)
+	for i := range trs.Items {
+		trs.Items[i].Status = v1alpha2.TLSRouteStatus{}
+		_ = w.k8s.Status().Update(ctx, &trs.Items[i])
+	}
 	var btps v1alpha3.BackendTLSPolicyList
 	_ = w.k8s.List(ctx, &btps)
 	for i := range btps.Items {
